@@ -567,6 +567,32 @@ def differs_only_in_dates(x, cls, compact):
     return loose_eq(y, x, ignore_dates=True)
 
 
+def required_none_fields(v, depth=0, out=None):
+    """[(class name, field name)]: every Structure reachable from v (v included) that has a REQUIRED field whose
+    stored value is None -- whatever the declaration that admits None (NoneField, AnyOf[..., None], Anything, ...)."""
+    from typedpy import Structure
+    out = out if out is not None else []
+    if depth > 12 or v is None:
+        return out
+    if isinstance(v, Structure):
+        cls = type(v)
+        fields = list(cls.get_all_fields_by_name().keys())
+        for name in getattr(cls, "_required", fields) or []:
+            if name in fields and v.__dict__.get(name) is None:
+                out.append((cls.__name__, name))
+        for k, a in v.__dict__.items():
+            if k not in SG.S.INTERNAL:
+                required_none_fields(a, depth + 1, out)
+    elif isinstance(v, dict):
+        for k, a in v.items():
+            required_none_fields(k, depth + 1, out)
+            required_none_fields(a, depth + 1, out)
+    elif isinstance(v, (list, tuple, set, frozenset, collections.deque)):
+        for a in v:
+            required_none_fields(a, depth + 1, out)
+    return out
+
+
 def date_leaves(x, ctx):
     """[(kind, custom, value, RT)] for the date/time values stored in x."""
     out = []
